@@ -15,6 +15,7 @@
 -/
 import AM.Lemmas.Decode
 import AM.Lemmas.CrashRead
+import AM.Lemmas.CrashHist
 
 namespace AM.Snapshot
 
@@ -139,15 +140,15 @@ structure Inv (fs : FS) (target : String) (Q : Option Bytes → Prop) (last : Op
     holds a complete earlier snapshot (`Q`) or the complete new one — never a
     torn or mixed file; and when all executed directory operations are
     persisted it is the last completed snapshot or the new one. -/
-theorem crash_any_point_loads_old_or_new (fs0 : FS) (tmp target : String) (chunks : List Bytes)
+theorem crash_any_point_loads_old_or_new (fs0 : FS) (tmp target : String) (trunc : Bool) (chunks : List Bytes)
     (Q : Option Bytes → Prop) (last : Option Bytes)
     (hne : tmp ≠ target) (hfresh : fs0.dirNow.get tmp = none) (hinv : Inv fs0 target Q last)
     (i j m : Nat) :
-    let fs := run fs0 ((snapshotOps tmp target chunks).take i)
+    let fs := run fs0 ((snapshotOps tmp trunc target chunks).take i)
     let r := crashRead fs j m target
     (Q r ∨ r = some chunks.flatten) ∧ (fs.log.length ≤ j → r = last ∨ r = some chunks.flatten) := by
   intro fs r
-  rcases crash_point_cases fs0 tmp target chunks hne hfresh hinv.wf i j m with ⟨j', hj', hr⟩ | hr
+  rcases crash_point_cases fs0 tmp target trunc chunks hne hfresh hinv.wf i j m with ⟨j', hj', hr⟩ | hr
   · refine ⟨Or.inl ?_, fun hj => Or.inl ?_⟩
     · show Q (crashRead fs j m target)
       rw [hr]; exact hinv.weak j' m
@@ -156,32 +157,32 @@ theorem crash_any_point_loads_old_or_new (fs0 : FS) (tmp target : String) (chunk
   · exact ⟨Or.inr hr, fun _ => Or.inr hr⟩
 
 /-- a completed snapshot re-establishes the invariant with the new content as `last` -/
-theorem snapshot_preserves (fs0 : FS) (tmp target : String) (chunks : List Bytes)
+theorem snapshot_preserves (fs0 : FS) (tmp target : String) (trunc : Bool) (chunks : List Bytes)
     (Q : Option Bytes → Prop) (last : Option Bytes)
     (hne : tmp ≠ target) (hfresh : fs0.dirNow.get tmp = none) (hinv : Inv fs0 target Q last) :
-    Inv (run fs0 (snapshotOps tmp target chunks)) target (fun r => Q r ∨ r = some chunks.flatten)
+    Inv (run fs0 (snapshotOps tmp trunc target chunks)) target (fun r => Q r ∨ r = some chunks.flatten)
       (some chunks.flatten) := by
-  obtain ⟨hwf, hstrong, _⟩ := after_snapshot fs0 tmp target chunks hne hfresh hinv.wf
+  obtain ⟨hwf, hstrong, _⟩ := after_snapshot fs0 tmp target trunc chunks hne hfresh hinv.wf
   refine ⟨hwf, ?_, hstrong⟩
   intro j m
-  have := (crash_any_point_loads_old_or_new fs0 tmp target chunks Q last hne hfresh hinv
-            (snapshotOps tmp target chunks).length j m).1
+  have := (crash_any_point_loads_old_or_new fs0 tmp target trunc chunks Q last hne hfresh hinv
+            (snapshotOps tmp trunc target chunks).length j m).1
   simpa using this
 
-/-- a whole history of maintenance / shutdown snapshots -/
-def runAll (fs : FS) (target : String) : List (String × List Bytes) → FS
+/-- a whole history of completed maintenance / shutdown snapshots (open flag `trunc`, whatever it is) -/
+def runAll (trunc : Bool) (fs : FS) (target : String) : List (String × List Bytes) → FS
   | [] => fs
-  | (tmp, chunks) :: rest => runAll (run fs (snapshotOps tmp target chunks)) target rest
+  | (tmp, chunks) :: rest => runAll trunc (run fs (snapshotOps tmp trunc target chunks)) target rest
 
 def lastOf (last : Option Bytes) : List (String × List Bytes) → Option Bytes
   | [] => last
   | (_, chunks) :: rest => lastOf (some chunks.flatten) rest
 
-theorem history_inv (target : String) (snaps : List (String × List Bytes)) :
+theorem history_inv (trunc : Bool) (target : String) (snaps : List (String × List Bytes)) :
     ∀ (fs0 : FS) (Q : Option Bytes → Prop) (last : Option Bytes),
     (∀ s ∈ snaps, s.1 ≠ target ∧ fs0.dirNow.get s.1 = none) → Inv fs0 target Q last →
-    Inv (runAll fs0 target snaps) target (fun r => Q r ∨ ∃ s ∈ snaps, r = some s.2.flatten) (lastOf last snaps) ∧
-    (∀ q, q ≠ target → fs0.dirNow.get q = none → (runAll fs0 target snaps).dirNow.get q = none) := by
+    Inv (runAll trunc fs0 target snaps) target (fun r => Q r ∨ ∃ s ∈ snaps, r = some s.2.flatten) (lastOf last snaps) ∧
+    (∀ q, q ≠ target → fs0.dirNow.get q = none → (runAll trunc fs0 target snaps).dirNow.get q = none) := by
   induction snaps with
   | nil =>
     intro fs0 Q last _ hinv
@@ -190,10 +191,10 @@ theorem history_inv (target : String) (snaps : List (String × List Bytes)) :
     intro fs0 Q last hfresh hinv
     obtain ⟨tmp, chunks⟩ := s
     have h1 := hfresh (tmp, chunks) (by simp)
-    have hpres := snapshot_preserves fs0 tmp target chunks Q last h1.1 h1.2 hinv
-    obtain ⟨_, _, hkeep⟩ := after_snapshot fs0 tmp target chunks h1.1 h1.2 hinv.wf
+    have hpres := snapshot_preserves fs0 tmp target trunc chunks Q last h1.1 h1.2 hinv
+    obtain ⟨_, _, hkeep⟩ := after_snapshot fs0 tmp target trunc chunks h1.1 h1.2 hinv.wf
     have hfresh' : ∀ s ∈ snaps, s.1 ≠ target ∧
-        (run fs0 (snapshotOps tmp target chunks)).dirNow.get s.1 = none := by
+        (run fs0 (snapshotOps tmp trunc target chunks)).dirNow.get s.1 = none := by
       intro s hs
       have := hfresh s (by simp [hs])
       exact ⟨this.1, hkeep s.1 this.1 this.2⟩
@@ -212,19 +213,19 @@ theorem history_inv (target : String) (snaps : List (String × List Bytes)) :
     of *some* completed snapshot (or what was there before the first) or of the
     one in progress; under "rename durable on return" exactly the last completed
     one or the one in progress. -/
-theorem crash_history (fs0 : FS) (target : String) (done : List (String × List Bytes))
+theorem crash_history (trunc : Bool) (fs0 : FS) (target : String) (done : List (String × List Bytes))
     (tmp : String) (chunks : List Bytes) (Q : Option Bytes → Prop) (last : Option Bytes)
     (hinv : Inv fs0 target Q last)
     (hfresh : ∀ s ∈ (tmp, chunks) :: done, s.1 ≠ target ∧ fs0.dirNow.get s.1 = none)
     (i j m : Nat) :
-    let fs := run (runAll fs0 target done) ((snapshotOps tmp target chunks).take i)
+    let fs := run (runAll trunc fs0 target done) ((snapshotOps tmp trunc target chunks).take i)
     let r := crashRead fs j m target
     (Q r ∨ (∃ s ∈ done, r = some s.2.flatten) ∨ r = some chunks.flatten) ∧
     (fs.log.length ≤ j → r = lastOf last done ∨ r = some chunks.flatten) := by
   intro fs r
-  obtain ⟨hI, hK⟩ := history_inv target done fs0 Q last (fun s hs => hfresh s (by simp [hs])) hinv
+  obtain ⟨hI, hK⟩ := history_inv trunc target done fs0 Q last (fun s hs => hfresh s (by simp [hs])) hinv
   have h1 := hfresh (tmp, chunks) (by simp)
-  have := crash_any_point_loads_old_or_new (runAll fs0 target done) tmp target chunks _ _
+  have := crash_any_point_loads_old_or_new (runAll trunc fs0 target done) tmp target trunc chunks _ _
     h1.1 (hK tmp h1.1 h1.2) hI i j m
   obtain ⟨ha, hb⟩ := this
   refine ⟨?_, hb⟩
@@ -256,29 +257,158 @@ theorem initial_inv (target : String) (old : Option Bytes) :
     · intro j m _; simp [initial, crashRead, FS.dirAt, Dir.get, List.take_of_length_le]
 
 /-- the statement in its plainest form: one snapshot over a settled disk -/
-theorem crash_old_or_new (target tmp : String) (old : Option Bytes) (chunks : List Bytes)
+theorem crash_old_or_new (target tmp : String) (trunc : Bool) (old : Option Bytes) (chunks : List Bytes)
     (hne : tmp ≠ target) (i j m : Nat) :
-    crashRead (run (initial target old) ((snapshotOps tmp target chunks).take i)) j m target = old ∨
-    crashRead (run (initial target old) ((snapshotOps tmp target chunks).take i)) j m target = some chunks.flatten := by
+    crashRead (run (initial target old) ((snapshotOps tmp trunc target chunks).take i)) j m target = old ∨
+    crashRead (run (initial target old) ((snapshotOps tmp trunc target chunks).take i)) j m target = some chunks.flatten := by
   have hfresh : (initial target old).dirNow.get tmp = none := by
     cases old <;> simp [initial, FS.dirNow, Dir.get, Ne.symm hne]
-  exact (crash_any_point_loads_old_or_new _ tmp target chunks _ _ hne hfresh (initial_inv target old) i j m).1
+  exact (crash_any_point_loads_old_or_new _ tmp target trunc chunks _ _ hne hfresh (initial_inv target old) i j m).1
+
+/-! ### histories in which attempts CRASH: their temp files stay on the disk -/
+
+/-- The discipline the argument needs of every attempt of a history, evaluated
+    in the state the attempt starts in: the temp name is not the target, and the
+    temp file is empty when written — the open truncates (`O_TRUNC`, what
+    `os.Create` does) OR the name does not exist at that moment. -/
+def HistOK (F : String) : FS → List Attempt → Prop
+  | _, [] => True
+  | fs, a :: rest =>
+    a.tmp ≠ F ∧ (a.trunc = true ∨ fs.dirNow.get a.tmp = none) ∧ HistOK F (runAttempt F fs a) rest
+
+/-- the driver evaluates the discipline with `histOKb` -/
+theorem histOKb_iff (F : String) (as : List Attempt) : ∀ fs, histOKb F fs as = true ↔ HistOK F fs as := by
+  induction as with
+  | nil => intro fs; simp [histOKb, HistOK]
+  | cons a as ih =>
+    intro fs
+    simp only [histOKb, HistOK, Bool.and_eq_true, Bool.or_eq_true, bne_iff_ne, ne_eq, ih, Option.isNone_iff_eq_none]
+    constructor
+    · rintro ⟨⟨h1, h2⟩, h3⟩; exact ⟨h1, h2, h3⟩
+    · rintro ⟨h1, h2, h3⟩; exact ⟨⟨h1, h2⟩, h3⟩
+
+theorem runAttempt_inv {fs : FS} {F : String} {Q : Option Bytes → Prop} (h : HInv fs F Q) (a : Attempt)
+    (hne : a.tmp ≠ F) (hopen : a.trunc = true ∨ fs.dirNow.get a.tmp = none) :
+    HInv (runAttempt F fs a) F (fun r => Q r ∨ r = some a.chunks.flatten) := by
+  unfold runAttempt
+  cases hc : a.crash with
+  | none =>
+    have := HInv_attempt_point h a.tmp hne a.trunc hopen a.chunks (snapshotOps a.tmp a.trunc F a.chunks).length
+    simpa using this
+  | some c =>
+    obtain ⟨i, j, ms⟩ := c
+    exact (HInv_attempt_point h a.tmp hne a.trunc hopen a.chunks i).crashFS j ms
+
+theorem runHist_inv (F : String) (as : List Attempt) :
+    ∀ (fs : FS) (Q : Option Bytes → Prop), HInv fs F Q → HistOK F fs as →
+      HInv (runHist F fs as) F (fun r => Q r ∨ ∃ a ∈ as, r = some a.chunks.flatten) := by
+  induction as with
+  | nil =>
+    intro fs Q h _
+    exact h.mono fun r hr => Or.inl hr
+  | cons a as ih =>
+    intro fs Q h hok
+    obtain ⟨hne, hopen, hrest⟩ := hok
+    have h1 := runAttempt_inv h a hne hopen
+    have h2 := ih _ _ h1 hrest
+    simp only [runHist, List.foldl_cons] at h2 ⊢
+    refine h2.mono ?_
+    intro r hr
+    rcases hr with (hq | hq) | ⟨b, hb, hq⟩
+    · exact Or.inl hq
+    · exact Or.inr ⟨a, by simp, hq⟩
+    · exact Or.inr ⟨b, by simp [hb], hq⟩
+
+theorem initial_HInv (F : String) (old : Option Bytes) : HInv (initial F old) F (fun r => r = old) := by
+  cases old with
+  | none =>
+    refine ⟨?_, ?_, ?_, ?_⟩
+    · intro j p id h; simp [initial, FS.dirAt, Dir.get] at h
+    · intro j p q id h; simp [initial, FS.dirAt, Dir.get] at h
+    · intro j id p h; simp [initial, FS.dirAt, Dir.get] at h
+    · intro j m; simp [initial, crashRead, FS.dirAt, Dir.get]
+  | some o =>
+    refine ⟨?_, ?_, ?_, ?_⟩
+    · intro j p id h
+      simp [initial, FS.dirAt, Dir.get] at h
+      simp [initial]; omega
+    · intro j p q id hp hq
+      simp [initial, FS.dirAt, Dir.get] at hp hq
+      rw [← hp.1, ← hq.1]
+    · intro j id p hF hne hp
+      simp [initial, FS.dirNow, Dir.get] at hp
+      exact hne hp.1.symm
+    · intro j m; simp [initial, crashRead, FS.dirAt, Dir.get, List.take_of_length_le]
+
+/-- **crashed_attempts_history.**  Over a data directory that starts with a
+    complete snapshot (or none), run ANY history of snapshot attempts, each of
+    which may complete or crash at any point `(i, j, ms)` — the machine then
+    restarts on what reached the disk, temp file of the interrupted attempt
+    included.  If every attempt keeps the discipline `HistOK` (temp name ≠
+    target; truncating open or a name that does not exist), then in every crash
+    state of the end of the history the target holds what was there at the start
+    or the COMPLETE content of ONE attempt: never a torn file, never a mix of two
+    states.  (A crash during the last attempt is a history whose last attempt
+    has `crash = some …`.) -/
+theorem crashed_attempts_history (F : String) (old : Option Bytes) (as : List Attempt)
+    (hok : HistOK F (initial F old) as) (j m : Nat) :
+    crashRead (runHist F (initial F old) as) j m F = old ∨
+    ∃ a ∈ as, crashRead (runHist F (initial F old) as) j m F = some a.chunks.flatten :=
+  (runHist_inv F as _ _ (initial_HInv F old) hok).weak j m
+
+/-- the code as it is opens the temp file with `os.Create` = `O_TRUNC`: the
+    discipline holds whatever names the attempts use (even one fixed name) -/
+theorem histOK_of_trunc (F : String) (as : List Attempt) (h : ∀ a ∈ as, a.tmp ≠ F ∧ a.trunc = true) :
+    ∀ fs, HistOK F fs as := by
+  induction as with
+  | nil => intro fs; trivial
+  | cons a as ih =>
+    intro fs
+    exact ⟨(h a (by simp)).1, Or.inl (h a (by simp)).2, ih (fun b hb => h b (by simp [hb])) _⟩
+
+theorem crashed_attempts_history_trunc (F : String) (old : Option Bytes) (as : List Attempt)
+    (h : ∀ a ∈ as, a.tmp ≠ F ∧ a.trunc = true) (j m : Nat) :
+    crashRead (runHist F (initial F old) as) j m F = old ∨
+    ∃ a ∈ as, crashRead (runHist F (initial F old) as) j m F = some a.chunks.flatten :=
+  crashed_attempts_history F old as (histOK_of_trunc F as h _) j m
+
+/-- **Without the discipline the statement is false.**  One fixed temp name
+    opened WITHOUT `O_TRUNC`: an attempt writing `[2,3,4,5]` crashes after its
+    write (the link and the four bytes reached the disk); the next attempt
+    writes the shorter `[9]` over the stale file, syncs, renames — and the
+    completed snapshot reads `[9,3,4,5]`: a mix of two states. -/
+theorem stale_temp_without_trunc_mixed :
+    crashRead (runHist "f" (initial "f" (some [1, 1]))
+      [{ tmp := "t", trunc := false, chunks := [[2, 3, 4, 5]], crash := some (2, 1, fun _ => 4) },
+       { tmp := "t", trunc := false, chunks := [[9]] }]) 1 0 "f" = some [9, 3, 4, 5] := by decide
+
+/-- … with `O_TRUNC` on the same fixed name the same history is clean -/
+theorem stale_temp_with_trunc_clean :
+    crashRead (runHist "f" (initial "f" (some [1, 1]))
+      [{ tmp := "t", trunc := true, chunks := [[2, 3, 4, 5]], crash := some (2, 1, fun _ => 4) },
+       { tmp := "t", trunc := true, chunks := [[9]] }]) 1 0 "f" = some [9] := by decide
+
+/-- … and so is a fresh name per attempt without `O_TRUNC` -/
+theorem stale_temp_fresh_name_clean :
+    crashRead (runHist "f" (initial "f" (some [1, 1]))
+      [{ tmp := "t1", trunc := false, chunks := [[2, 3, 4, 5]], crash := some (2, 1, fun _ => 4) },
+       { tmp := "t2", trunc := false, chunks := [[9]] }]) 2 0 "f" = some [9] := by decide
 
 /-! ### the order matters: the same model condemns the obvious wrong orders -/
 
 /-- rename before fsync: a crash after the rename keeps an arbitrary prefix of the new file -/
 theorem rename_before_fsync_torn :
-    crashRead (run (initial "f" (some [1, 1])) [.create "t", .write [2, 3, 4], .rename "t" "f"]) 2 1 "f"
+    crashRead (run (initial "f" (some [1, 1])) [.create "t" true, .write [2, 3, 4], .rename "t" "f"]) 2 1 "f"
       = some [2] := by decide
 
 /-- fsync dropped: the same, even after the run has finished -/
 theorem no_fsync_torn :
-    crashRead (run (initial "f" (some [1, 1])) [.create "t", .write [2, 3, 4], .close, .rename "t" "f"]) 2 0 "f"
+    crashRead (run (initial "f" (some [1, 1])) [.create "t" true, .write [2, 3, 4], .close, .rename "t" "f"]) 2 0 "f"
       = some [] := by decide
 
 /-- writing the target in place: a crash right after the open has lost the old snapshot -/
 theorem in_place_torn :
-    crashRead (run (initial "f" (some [1, 1])) [.create "f"]) 0 0 "f" = some [] := by decide
+    crashRead (run (initial "f" (some [1, 1])) [.create "f" true]) 0 0 "f" = some [] := by decide
 
 /-! ## Part 3 — the loader and its own files -/
 
@@ -287,28 +417,49 @@ theorem in_place_torn :
     or the complete new state.  Hypothesis `Good` contains the restriction that
     makes this partial: every record fits protodelim's `MaxSize`. -/
 theorem never_refuses_own_file_partial {M} (c : Codec M) (maxSize : Nat)
-    (target tmp : String) (oldS newS : List M) (chunks : List Bytes)
+    (target tmp : String) (trunc : Bool) (oldS newS : List M) (chunks : List Bytes)
     (hold : ∀ m ∈ oldS, Good c maxSize m) (hnew : ∀ m ∈ newS, Good c maxSize m)
     (hchunks : chunks.flatten = encodeState c newS)
     (hne : tmp ≠ target) (i j m : Nat) :
     match crashRead (run (initial target (some (encodeState c oldS)))
-            ((snapshotOps tmp target chunks).take i)) j m target with
+            ((snapshotOps tmp trunc target chunks).take i)) j m target with
     | none => False
     | some bytes => decodeState c maxSize bytes = .ok oldS ∨ decodeState c maxSize bytes = .ok newS := by
-  rcases crash_old_or_new target tmp (some (encodeState c oldS)) chunks hne i j m with h | h
+  rcases crash_old_or_new target tmp trunc (some (encodeState c oldS)) chunks hne i j m with h | h
   · rw [h]; left; exact decode_encode c maxSize oldS hold
   · rw [h, hchunks]; right; exact decode_encode c maxSize newS hnew
 
+/-- the same with the bound of the code as it is spelled out: `decodeState` reads with
+    protodelim's default `MaxSize` = 4 MiB = 4194304 bytes, so the hypothesis is "every
+    record of the old and of the new state is at most 4194304 bytes long" — exactly the
+    complement of finding F9 (class `oversize-record-over-4MiB`). -/
+theorem never_refuses_own_file_partial_4MiB {M} (c : Codec M)
+    (target tmp : String) (trunc : Bool) (oldS newS : List M) (chunks : List Bytes)
+    (hcodec : ∀ m ∈ oldS ++ newS, c.decodeMsg (c.encodeMsg (c.pre m)) = some (c.pre m) ∧ c.valid (c.pre m) = true ∧
+      c.post (c.pre m) = m)
+    (hsize : ∀ m ∈ oldS ++ newS, (c.encodeMsg (c.pre m)).length ≤ 4194304)
+    (hchunks : chunks.flatten = encodeState c newS)
+    (hne : tmp ≠ target) (i j m : Nat) :
+    match crashRead (run (initial target (some (encodeState c oldS)))
+            ((snapshotOps tmp trunc target chunks).take i)) j m target with
+    | none => False
+    | some bytes => decodeState c 4194304 bytes = .ok oldS ∨ decodeState c 4194304 bytes = .ok newS := by
+  have good : ∀ m ∈ oldS ++ newS, Good c 4194304 m := fun m hm =>
+    { codec := (hcodec m hm).1, valid := (hcodec m hm).2.1, post := (hcodec m hm).2.2, size := hsize m hm,
+      u64 := Nat.lt_of_le_of_lt (hsize m hm) (by decide) }
+  exact never_refuses_own_file_partial c 4194304 target tmp trunc oldS newS chunks
+    (fun m hm => good m (by simp [hm])) (fun m hm => good m (by simp [hm])) hchunks hne i j m
+
 /-- first start: no file, or the complete new state -/
 theorem never_refuses_first_snapshot {M} (c : Codec M) (maxSize : Nat)
-    (target tmp : String) (newS : List M) (chunks : List Bytes)
+    (target tmp : String) (trunc : Bool) (newS : List M) (chunks : List Bytes)
     (hnew : ∀ m ∈ newS, Good c maxSize m)
     (hchunks : chunks.flatten = encodeState c newS)
     (hne : tmp ≠ target) (i j m : Nat) :
-    match crashRead (run (initial target none) ((snapshotOps tmp target chunks).take i)) j m target with
+    match crashRead (run (initial target none) ((snapshotOps tmp trunc target chunks).take i)) j m target with
     | none => True
     | some bytes => decodeState c maxSize bytes = .ok newS := by
-  rcases crash_old_or_new target tmp none chunks hne i j m with h | h
+  rcases crash_old_or_new target tmp trunc none chunks hne i j m with h | h
   · rw [h]; trivial
   · rw [h, hchunks]; exact decode_encode c maxSize newS hnew
 
@@ -330,6 +481,23 @@ theorem oversize_record_refused :
     simp [encodeState, encodeRecord, rawCodec, encodeVarint_small]
   rw [this]; decide
 
+/-- The bound is tight at every limit: ANY record whose payload is longer than
+    the reader's `MaxSize` is refused by the loader, although the writer emitted
+    it (4 MiB = protodelim's default in the code as it is, finding F9; a smaller
+    read-side limit refuses correspondingly more of what the store writes). -/
+theorem oversize_record_refused_any (maxSize : Nat) (p : Bytes) (h : maxSize < p.length) (hu : p.length < 2 ^ 64) :
+    decodeState rawCodec maxSize (encodeState rawCodec [p]) = .error := by
+  have henc : encodeState rawCodec [p] = encodeRecord p := by simp [encodeState, rawCodec]
+  rw [henc]
+  unfold decodeState
+  rw [decodeLoop]
+  have hr : readRecord maxSize (encodeRecord p) = .err := by
+    rw [readRecord_ne_nil _ _ (encodeRecord_ne_nil p)]
+    unfold encodeRecord
+    rw [varint_roundtrip _ _ hu]
+    simp [h]
+  rw [hr]
+
 /-- … while the same record within the limit loads -/
 example : decodeState rawCodec 3 (encodeState rawCodec [[7, 7, 7]]) = .ok [[7, 7, 7]] := by
   have : encodeState rawCodec [[7, 7, 7]] = [3, 7, 7, 7] := by
@@ -345,6 +513,30 @@ theorem restart_keeps_muting_and_dedup {M β} (c : Codec M) (maxSize : Nat) (ms 
      | _ => none) = some (observe ms) := by
   rw [decode_encode c maxSize ms hg]
 
+/-- **never_refuses_own_file (partial), over histories with crashed attempts
+    and with the bound spelled out**: every record of every state that was ever
+    serialised is at most 4 MiB = 4194304 bytes long (`Good … defaultMaxSize`,
+    the limit `decodeState` reads with).  Then whatever the crash points of the
+    history, the file at the target path decodes to the complete state the
+    directory started with or to the complete state of ONE attempt. -/
+theorem history_never_refuses_own_file_partial {M} (c : Codec M) (F : String) (oldS : List M)
+    (as : List Attempt) (st : Attempt → List M)
+    (hold : ∀ m ∈ oldS, Good c defaultMaxSize m)
+    (hst : ∀ a ∈ as, a.chunks.flatten = encodeState c (st a) ∧ ∀ m ∈ st a, Good c defaultMaxSize m)
+    (hok : HistOK F (initial F (some (encodeState c oldS))) as) (j m : Nat) :
+    match crashRead (runHist F (initial F (some (encodeState c oldS))) as) j m F with
+    | none => False
+    | some bytes =>
+      decodeState c defaultMaxSize bytes = .ok oldS ∨ ∃ a ∈ as, decodeState c defaultMaxSize bytes = .ok (st a) := by
+  rcases crashed_attempts_history F (some (encodeState c oldS)) as hok j m with h | ⟨a, ha, h⟩
+  · rw [h]; left; exact decode_encode c defaultMaxSize oldS hold
+  · rw [h, (hst a ha).1]; right
+    exact ⟨a, ha, decode_encode c defaultMaxSize (st a) (hst a ha).2⟩
+
+/-- the bound of the partial theorems, in figures -/
+theorem good_size_is_4MiB {M} (c : Codec M) (m : M) (g : Good c defaultMaxSize m) :
+    (c.encodeMsg (c.pre m)).length ≤ 4194304 := g.size
+
 /-! ### non-vacuity -/
 
 example : Good rawCodec defaultMaxSize [1, 2, 3] :=
@@ -353,6 +545,6 @@ example : Good rawCodec defaultMaxSize [1, 2, 3] :=
 example : Inv (initial "nflog" (some [3, 1, 2, 3])) "nflog" (fun r => r = some [3, 1, 2, 3]) (some [3, 1, 2, 3]) :=
   initial_inv _ _
 
-example : (crashPoints true (initial "f" (some [1])) (snapshotOps "t" "f" [[2, 3]])).length = 16 := by decide
+example : (crashPoints true (initial "f" (some [1])) (snapshotOps "t" true "f" [[2, 3]])).length = 16 := by decide
 
 end AM.CrashFS
